@@ -472,6 +472,32 @@ func c19Seek(c *engine.Ctx, in []byte, args map[string]string) {
 		return r, done
 	}
 	if r, done := open(); r == nil {
+		// a backend that can only be read in sequence: ReadAt may refuse, but it must not take bytes away from the
+		// reads that follow (io.ReaderAt: "ReadAt should not affect nor be affected by the underlying seek offset")
+		if r, done, _ := c19Open(backend, data); r != nil {
+			done()
+			name := c19Backends[backend]
+			for pos := 0; pos <= L; pos++ {
+				for off := 0; off <= L; off++ {
+					for n := 0; n <= L+1-off; n++ {
+						r, done, _ := c19Open(backend, data)
+						head := r.ReadBytes(int64(pos))
+						p := bytes.Repeat([]byte{'.'}, n)
+						m, err := r.ReadAt(p, int64(off))
+						c.Count("transitions", 3)
+						d := fmt.Sprintf("%s L=%d: ReadBytes(%d) then ReadAt(len %d, off %d) = (%d, %v) %q Pos()=%d", name, L, pos, n, off, m, err, p, r.Pos())
+						if string(head) != string(data[:pos]) || r.Pos() != int64(pos) {
+							c.Fail("io.ReaderAt-sequential", d+" (position moved)")
+						} else if m < 0 || m > n || off+m > L || !bytes.Equal(p[:m], data[off:off+m]) || (m < n && err == nil) {
+							c.Fail("io.ReaderAt-sequential", d+" (neither refused nor the right bytes)")
+						} else if rest := r.ReadBytes(int64(L - pos)); string(rest) != string(data[pos:]) || r.Err() != nil {
+							c.Fail("io.ReaderAt-sequential", fmt.Sprintf("%s; the following ReadBytes(%d) gives %q err=%v want %q", d, L-pos, rest, r.Err(), data[pos:]))
+						}
+						done()
+					}
+				}
+			}
+		}
 		return
 	} else {
 		done()
@@ -563,12 +589,21 @@ func c19Seek(c *engine.Ctx, in []byte, args map[string]string) {
 // input: args kind=write: bit string as bytes '0'/'1'; kind=read: raw buffer
 func c19Bitmap(c *engine.Ctx, in []byte, args map[string]string) {
 	if args["kind"] == "write" {
-		pre := []byte{0xAA}
-		w := parse.NewBitmapWriter(nil)
+		// the destination: nil, or an empty slice of a scratch array that still holds old data in its spare capacity
+		var dst []byte
+		var scratch []byte
+		switch args["dst"] {
+		case "dirty":
+			scratch = bytes.Repeat([]byte{0xFF}, 2)
+			dst = scratch[:0]
+		case "dirty-large":
+			scratch = bytes.Repeat([]byte{0xAA}, 8)
+			dst = scratch[:0]
+		}
+		w := parse.NewBitmapWriter(dst)
 		for _, b := range in {
 			w.Write(b == '1')
 		}
-		_ = pre
 		buf := w.Bytes()
 		if int64(len(buf)) != w.Len() {
 			c.Fail("bitmap-writer-len", fmt.Sprintf("Len()=%d len(Bytes())=%d", w.Len(), len(buf)))
@@ -689,6 +724,13 @@ func c19Work(c *engine.Ctx) {
 		c.Exec(bm, in, map[string]string{"kind": "write"})
 		c.Count("exec", 1)
 		c.Count("transitions", int64(len(in)))
+		if len(in) <= 17 {
+			for _, dst := range []string{"dirty", "dirty-large"} {
+				c.Exec(bm, in, map[string]string{"kind": "write", "dst": dst})
+				c.Count("exec", 1)
+				c.Count("transitions", int64(len(in)))
+			}
+		}
 	})
 	for v := 0; v < 65536+256+1; v++ {
 		if !c.Mine(v) {
@@ -724,7 +766,7 @@ func c19Finish(c *engine.Ctx, cov map[string]interface{}) string {
 func init() {
 	register(&engine.Check{
 		ID: "C19", Level: "model_checking",
-		Rule:        "all write histories of ≤3 (thorough 4) typed writes (27 op/value pairs: every width, signed and unsigned boundary values, byte strings of 0,1,3 bytes) plus all histories of 4 (thorough 5) writes over a 12-op core × {big, little} endian: writer bytes vs encoding/binary, then read back on 15 backends/environment behaviours (memory, Bytes() reader, ReadSeeker n/-1/1-byte chunks/EOF-with-data, ReaderAt with nil or EOF on exact fit, plain reader -1/n/chunked/EOF-with-data, *os.File, mmap path, mmap file) with the data truncated at every byte; Seek from every position × every offset in [-L-1,L+1] × whence 0..3 and Read/ReadAt for every (pos,len) on L≤6 bytes vs bytes.Reader and the io contracts; every bit string ≤17 bits through BitmapWriter→BitmapReader and every buffer ≤2 bytes through BitmapReader",
+		Rule:        "all write histories of ≤3 (thorough 4) typed writes (27 op/value pairs: every width, signed and unsigned boundary values, byte strings of 0,1,3 bytes) plus all histories of 4 (thorough 5) writes over a 12-op core × {big, little} endian: writer bytes vs encoding/binary, then read back on 15 backends/environment behaviours (memory, Bytes() reader, ReadSeeker n/-1/1-byte chunks/EOF-with-data, ReaderAt with nil or EOF on exact fit, plain reader -1/n/chunked/EOF-with-data, *os.File, mmap path, mmap file) with the data truncated at every byte; Seek from every position × every offset in [-L-1,L+1] × whence 0..3 and Read/ReadAt for every (pos,len) on L≤6 bytes vs bytes.Reader and the io contracts (on the sequential-only backends: ReadAt at every (pos, off, len) either refuses or returns the right bytes and leaves the following reads intact); every bit string ≤17 bits through BitmapWriter→BitmapReader (destination nil, or an empty slice whose spare capacity holds old data) and every buffer ≤2 bytes through BitmapReader",
 		Assumptions: []string{"a reader may legally deliver io.EOF together with the last bytes, and a ReaderAt may return io.EOF or nil when a read ends exactly at the end", "Seek targets outside [0,Len] may be rejected (position unchanged) or accepted"},
 		Setup:       c19Setup, Work: c19Work, Finish: c19Finish,
 	})
